@@ -465,3 +465,23 @@ Definition finalize_p (b : br) : Taproot.outcome spendinfo := Taproot.finalize t
 Definition PSET_MAX_COUNT : N := 10000.
 Definition pset_reserve (sz count : N) : outcome unit * N :=
   if PSET_MAX_COUNT <? count then (Fail (E "toolarge"), 0) else (Val tt, count * sz).
+
+(* ================================================================================================ the small fallible integer constructors *)
+(* src/transaction.rs: Sequence::{from_height, from_512_second_intervals, from_seconds_floor, from_seconds_ceil} (u16 / u32 arguments);
+   `u32::div_ceil` is quotient plus one when there is a remainder — no intermediate sum, so nothing can overflow *)
+Definition seq_from_height (h : N) : N := h.
+Definition seq_from_512 (i : N) : N := N.lor i C10_SEQ_LOCK_TYPE_MASK.
+Definition u32_div_ceil (a b : N) : N := if 0 <? a mod b then a / b + 1 else a / b.
+Definition seq_from_seconds_floor (s : N) : outcome N :=
+  let i := s / C10_SEQ_FLOOR_INTERVAL in if i <? 65536 then Val (seq_from_512 i) else Fail (E "overflow").     (* u16::try_from *)
+Definition seq_from_seconds_ceil (s : N) : outcome N :=
+  let i := u32_div_ceil s C10_SEQ_CEIL_INTERVAL in if i <? 65536 then Val (seq_from_512 i) else Fail (E "overflow").
+(* src/locktime.rs: LockTime::{from_consensus, from_height, from_time}, Height::from_consensus, Time::from_consensus *)
+Definition is_block_height (n : N) : bool := n <? C10_LOCK_TIME_THRESHOLD.
+Definition lt_from_height (n : N) : outcome N := if is_block_height n then Val n else Fail (E "notheight").
+Definition lt_from_time (n : N) : outcome N := if is_block_height n then Fail (E "nottime") else Val n.
+(* EcdsaSighashType::from_standard; PsbtSighashType::{ecdsa_hash_ty, schnorr_hash_ty} (`self.inner as u8` behind `inner > 0xff`) *)
+Definition ecdsa_from_standard (n : N) : outcome N := if existsb (N.eqb n) C10_ECDSA_STANDARD then Val n else Fail (E "nonstandard").
+Definition psbt_schnorr_hash_ty (n : N) : option N := if 0xff <? n then None else sighash_from_u8 (n mod 256).
+(* opcodes::Ordinary::try_from_all *)
+Definition ordinary_try_from_all (b : N) : option N := if Script.memN b ordinary_opcodes then Some b else None.
